@@ -30,6 +30,10 @@ ASSUMPTIONS = [
 HOSTILE = ["plain", "with space", " lead", "trail ", "comma,inside", "semi;colon", "pipe|char", "tab\tchar", 'dq"uote',
            "sq'uote", '""', "new\nline", "carriage\rreturn", "crlf\r\nboth", "ünï-cødé", "日本語", "emoji😀", "", "  ",
            "1.5", "-3", "None", "nan", "#hash", "back\\slash", "x" * 300, '"', ",", "a,b\"c\nd"]
+# multi-line fields whose inner lines are empty or blank (a CSV field can hold them; a reader that filters "blank lines"
+# of the file must not look inside quoted fields)
+MULTILINE = ["para 1\n\npara 2", "title\r\n\r\nbody", "x\n   \ny", "text\n\n", "\n\nlead", "a\n\t\nb", "\n"]
+HOSTILE += MULTILINE
 
 
 def plan(tier, seed):
@@ -65,7 +69,13 @@ def check_roundtrip(ctx, case):
     from pyannote.core import Segment
     ctx.count("M-ROUNDTRIP")
     c = Continuum()
+    tt = case.get("time_type", "float")
     for a, s, e, lab in case["units"]:
+        if tt == "np.float64":          # times taken from an array / a cumulative sum: same values, numpy scalars
+            import numpy as np
+            s, e = np.float64(s), np.float64(e)
+        elif tt == "int" and float(s).is_integer() and float(e).is_integer():
+            s, e = int(s), int(e)
         c.add(a, Segment(s, e), lab)
     path = os.path.join(workdir(ctx), f"rt-{ctx.evaluations}.csv")
     delim = case["delimiter"]
@@ -92,7 +102,7 @@ def check_roundtrip(ctx, case):
 
 def gen_roundtrip(rng):
     n_ann = rng.randint(1, 4)
-    anns = rng.sample(HOSTILE[:19] + ["alex", "bob"], n_ann)
+    anns = rng.sample(HOSTILE[:19] + MULTILINE + ["alex", "bob"], n_ann)
     anns = [a for a in anns if a != ""] or ["solo"]
     units = set()
     for a in anns:
@@ -102,7 +112,8 @@ def gen_roundtrip(rng):
             if (s + d) - s <= 2e-6:
                 d = 1.0
             units.add((a, s, s + d, rng.choice(HOSTILE)))
-    return {"kind": "roundtrip", "units": [list(u) for u in sorted(units, key=repr)], "delimiter": rng.choice([",", ";", "\t", "|"])}
+    return {"kind": "roundtrip", "units": [list(u) for u in sorted(units, key=repr)], "delimiter": rng.choice([",", ";", "\t", "|"]),
+            "time_type": rng.choice(["float", "float", "np.float64", "int"])}
 
 
 # ------------------------------------------------------------------------------------------------ (b) CSV reader
@@ -163,7 +174,7 @@ def gen_csv_read(rng):
             e = s + 5e-7                # below the segment precision
         else:
             e = s + rng.uniform(0.01, 40)
-        rows.add((rng.choice(anns), rng.choice(HOSTILE[:17] + ["lab"]), s, e))
+        rows.add((rng.choice(anns), rng.choice(HOSTILE[:17] + MULTILINE + ["lab"]), s, e))
     import csv
     return {"kind": "csv-read", "rows": [list(r) for r in sorted(rows, key=repr)], "delimiter": rng.choice([",", ";", "\t", "|"]),
             "writer": rng.choice(["csv", "csv", "hand"]), "quoting": rng.choice([csv.QUOTE_MINIMAL, csv.QUOTE_ALL, csv.QUOTE_NONNUMERIC])}
